@@ -32,7 +32,7 @@ def all_slices(rng, steps):
     return [(a, b, c) for a in bounds for b in bounds for c in stp]
 
 
-def exhaustive_1d(maxlen=6, rng=8, steps=3, masklen=5, mrng=4, iadd=True, convert=True, full=True):
+def exhaustive_1d(maxlen=6, rng=8, steps=3, masklen=5, mrng=4, iadd=True, convert=True, full=True, targets=(), copyproto=False):
     """Small-scope exhaustive families for one element type."""
     slices = all_slices(rng, steps)
     # (a) integer indices
@@ -135,6 +135,25 @@ def exhaustive_1d(maxlen=6, rng=8, steps=3, masklen=5, mrng=4, iadd=True, conver
                 yield "convert-masked", p
 
 
+    # (h) EVERY converting constructor (one program per target class), dense and masked sources
+    for T in targets:
+        for n in range(min(masklen, 3) + 1):
+            bv = base_vals(n)
+            yield "convert-target", ["alloc " + vals(bv), "convert 0 " + T, "len 1"] + ["getitem 1 %d" % i for i in range(-n - 1, n + 1)] + \
+                ["alloci " + vals([1, 0, 1][:n]), "getmask 0 2", "convert 3 " + T, "len 4", "ro 0", "convert 0 " + T, "setscalar 5 s:N:N:N 3"]
+    # (i) `copy.copy(a)` / `copy.deepcopy(a)`: `decoratecopy` wraps the COPY CONSTRUCTOR for both, so each is another handle
+    #     on the same storage (also the "deep" one), with the mask and the read-only flag of its source
+    if copyproto:
+        for n in range(min(masklen, 3) + 1):
+            bv = base_vals(n)
+            for bits in itertools.product((0, 1), repeat=n):
+                p = ["alloc " + vals(bv), "alloci " + vals(bits), "getmask 0 1", "copyc 0", "copyd 0", "copyc 2", "copyd 2",
+                     "len 3", "len 4", "len 5", "len 6", "setscalar 3 s:N:N:N 5", "setscalar 4 s:N:N:2 6", "setscalar 5 s:N:N:N 7",
+                     "setscalar 6 s:N:N:-1 8", "ro 0", "copyc 0", "copyd 0", "setscalar 7 s:N:N:N 1", "setscalar 8 s:N:N:N 1",
+                     "setscalar 4 s:N:N:N 2", "getmask 8 1", "setscalar 9 s:N:N:N 3", "len 0"]
+                yield "copy-protocol", p
+
+
 # ----------------------------------------------------------------------------------------------
 # component arrays of vector arrays (`.x .y .z .w`, `.r .g .b .a`, quaternion `.r .x .y .z`, box `.min .max`)
 
@@ -143,7 +162,7 @@ def wide_cells(n, w, off=10):
     return [off + i + 20 * k for i in range(n) for k in range(w)]
 
 
-def exhaustive_comp(w, maxlen=4, iadd=True, full=True, elemset=False):
+def exhaustive_comp(w, maxlen=4, iadd=True, full=True, elemset=False, settuple=False, setlist=False):
     """every component k < w of: the dense array, EVERY masked reference of it (all 0/1 masks), a handle copy;
     reads with every int index, writes (int, slice, mask, vector, in-place) THROUGH the component array — the
     storage dump shows where they land — and read-only propagation (array made read-only before / after)."""
@@ -189,6 +208,19 @@ def exhaustive_comp(w, maxlen=4, iadd=True, full=True, elemset=False):
                              (["iadds 3 1", "iaddv 3 6", "iadds 4 1", "iaddv 4 5"] if iadd else []):
                     if full or k == w - 1:
                         yield "comp-readonly", ro + [mline, "getitem 0 0"]
+        # class-specific `__setitem__(int, tuple)` (`setItemTuple`; V2 also takes a list): every int index of any sign through the
+        # dense array, every masked reference, a read-only array; wrong tuple lengths
+        for form in (["settuple"] if settuple else []) + (["setlist"] if setlist else []):
+            tv = lambda x: vals([x + 20 * k for k in range(w)])
+            p = ["allocw %d %s" % (w, vals(cells))] + ["%s 0 i:%d %s" % (form, i, tv(70 + i)) for i in range(-n - 1, n + 1)]
+            p += ["%s 0 i:0 %s" % (form, vals([1] * (w + 1))), "%s 0 i:0 %s" % (form, vals([1] * (w - 1))), "comp 0 %d" % (w - 1), "getitem 0 0"]
+            yield "comp-tuple", p
+            for bits in itertools.product((0, 1), repeat=n):
+                cnt = sum(bits)
+                yield "comp-tuple", ["allocw %d %s" % (w, vals(cells)), "alloci " + vals(bits), "getmask 0 1"] + \
+                    ["%s 2 i:%d %s" % (form, i, tv(80 + i)) for i in range(-cnt - 1, cnt + 1)] + \
+                    ["comp 0 0", "ro 0", "%s 0 i:0 %s" % (form, tv(5)), "%s 2 i:0 %s" % (form, tv(5)), "getmask 0 1", "%s 4 i:0 %s" % (form, tv(6)),
+                     "%s 0 i:%d %s" % (form, n, tv(5)), "getitem 0 0"]
         # a component array taken BEFORE makeReadOnly stays writable (documented aliasing, like any earlier view)
         if n:
             yield "comp-alias", ["allocw %d %s" % (w, vals(cells)), "comp 0 0", "ro 0", "setscalar 1 i:0 9", "getitem 0 0", "comp 0 0",
@@ -359,7 +391,7 @@ def boolify(programs):
 # ----------------------------------------------------------------------------------------------
 # FixedArray2D / FixedMatrix (IntArray2D, IntMatrix)
 
-def exhaustive_2d(rng=4):
+def exhaustive_2d(rng=4, targets=(), settuple=False):
     bounds = [None] + list(range(-rng, rng + 1))
     stp = [None, 1, 2, 3, -1, -2]
     sls = [(a, b, c) for a in bounds for b in bounds for c in stp]
@@ -382,6 +414,20 @@ def exhaustive_2d(rng=4):
                      "d2 alloc %d %d %s" % (wx + 1, wy, vals(base_vals((wx + 1) * wy, 50))),
                      "d2 setvector 0 %s %s 3" % (ix, iy)]
                 yield "2d-slice", p
+    for (lx, ly) in shapes:
+        bv = base_vals(lx * ly)
+        # the converting constructors (`FloatArray2D(IntArray2D)` ...): a fresh copy with the SAME (lenX, lenY)
+        for T in targets:
+            yield "2d-convert", ["d2 alloc %d %d %s" % (lx, ly, vals(bv)), "d2 convert 0 " + T, "d2 len 1"] + \
+                ["d2 item 1 %d %d" % (i, j) for i in range(lx) for j in range(ly)] + ["d2 setscalar 1 s:N:N:N s:N:N:N 3", "d2 item 0 0 0"]
+        # `c[(i, j)] = (r, g, b, a)` of the 2-D colour arrays: every int pair of any sign, wrong tuple lengths
+        if settuple:
+            p = ["d2 alloc %d %d %s" % (lx, ly, vals(bv))]
+            p += ["d2 settuple 0 %d %d %d 4" % (i, j, 60 + (i + 5) + 10 * (j + 5)) for i in range(-lx - 1, lx + 1) for j in range(-ly - 1, ly + 1)]
+            p += ["d2 settuple 0 0 0 9 3", "d2 settuple 0 0 0 9 5", "d2 len 0",
+                  # `copy.copy` / `copy.deepcopy` of a 2-D colour array: both are the copy constructor (shared storage)
+                  "d2 copyc 0", "d2 copyd 0", "d2 setscalar 1 s:N:N:N s:N:N:N 3", "d2 setscalar 2 s:0:1:N s:N:N:N 4", "d2 len 2"]
+            yield "2d-tuple", p
     for (lx, ly) in [(1, 1), (2, 2), (3, 1), (2, 3)]:
         bv = base_vals(lx * ly)
         for bits in itertools.product((0, 1), repeat=lx * ly):
